@@ -55,6 +55,8 @@ func (d notFoundDB) Load(k []byte) ([]byte, error) {
 func newPrune(seed int64, trie int, dir string) (*pruneState, string) {
 	p := &pruneState{ctl: &appsim.CrashCtl{}, txOf: map[uint64]common.Hash{}, setHash: map[uint64][]byte{}}
 	p.ce.Wrap = func(name string, db dbm.DB) dbm.DB { return appsim.WrapCrash(name, db, dir, p.ctl) }
+	// blocks are stored in many small parts (a dozen or more per block): part records of different heights must not collide
+	p.ce.PartSize = 61
 	if a := p.ce.Exec(fmt.Sprintf("chain trie=%d accts=2 wallets=1 seed=%d", trie, seed)); a != "ok" {
 		return nil, a
 	}
